@@ -15,7 +15,7 @@ import tempfile
 import termios
 import time
 
-BLOCKING_SYSCALLS = {"0", "7", "23", "270", "271", "232", "281"}  # read poll select pselect6 ppoll epoll_wait epoll_pwait
+BLOCKING_SYSCALLS = {"0", "7", "23", "270", "271", "232", "281", "219"}  # 219 restart_syscall: a wait resumed after stop/continue  # read poll select pselect6 ppoll epoll_wait epoll_pwait
 
 
 def _state(pid):
@@ -49,7 +49,7 @@ def _infinite_wait(sc):
     must not slip the next chunk into a key-sequence timeout window)"""
     n = sc[0]
     try:
-        if n == "0":
+        if n in ("0", "219"):
             return True
         if n == "7":      # poll(fds, nfds, timeout_ms)
             return int(sc[3], 16) & 0xffffffff == 0xffffffff
@@ -199,7 +199,42 @@ class Session:
     def send(self, data):
         os.write(self.master, bytes(data))
         self.sent += len(data)
-        return self.wait_quiet()
+        st = self.wait_quiet()
+        n = 0
+        while st == "stopped" and n < 5:      # the child suspended itself (C-z): resume it
+            os.kill(self.pid, signal.SIGCONT)
+            time.sleep(0.002)
+            st = self.wait_quiet()
+            n += 1
+        return st
+
+    def rebase(self):
+        """after something made the child read from a descriptor other than the terminal (signal pipe,
+        message pipe): count terminal bytes from here again"""
+        rc = _rchar(self.pid)
+        if rc is not None:
+            self.rbase = rc - self.sent
+
+    def resize(self, cols, rows=24):
+        """TIOCSWINSZ on the master: the kernel sends SIGWINCH to the foreground process group"""
+        fcntl.ioctl(self.master, termios.TIOCSWINSZ, struct.pack("HHHH", rows, cols, 0, 0))
+        time.sleep(0.002)
+        st = self.wait_quiet()
+        self.rebase()
+        return st
+
+    def stop_and_continue(self):
+        """suspend and resume the child: SIGSTOP (the child is a session leader in an orphaned process group, where
+        SIGTSTP's default action is ignored), then SIGCONT"""
+        os.kill(self.pid, signal.SIGSTOP)
+        t0 = time.time()
+        while _state(self.pid) not in ("T", "X", "Z") and time.time() - t0 < 5:
+            time.sleep(0.001)
+        os.kill(self.pid, signal.SIGCONT)
+        time.sleep(0.002)
+        st = self.wait_quiet()
+        self.rebase()
+        return st
 
     def termios_now(self):
         return termios.tcgetattr(self.slave)
@@ -248,17 +283,25 @@ class Session:
         return self.hangup_and_close()
 
 
-def run_case(exe, spec, chunks, cols=80, rows=24, raw_initial=False, probe=None):
-    """Returns dict: obs (list of lines), out (bytes), per-chunk outputs, statuses."""
+def run_case(exe, spec, chunks, cols=80, rows=24, raw_initial=False, probe=None, events=None):
+    """Returns dict: obs (list of lines), out (bytes), per-chunk outputs, statuses.
+    events: {chunk index: [("winch", cols) | ("tstp",)]} performed once that chunk has been consumed."""
     s = Session(exe, spec, cols, rows, raw_initial)
     statuses = [s.wait_quiet()]
     marks = [len(s.out)]
     obs_marks = [len(s.obs)]
     tio = []
-    for ch in chunks:
+    for k, ch in enumerate(chunks):
         if not s.alive:
             break
         statuses.append(s.send(ch))
+        for ev in (events or {}).get(k, []):
+            if not s.alive:
+                break
+            if ev[0] == "winch":
+                statuses.append(s.resize(ev[1], rows))
+            elif ev[0] == "tstp":
+                statuses.append(s.stop_and_continue())
         marks.append(len(s.out))
         obs_marks.append(len(s.obs))
         if probe:
